@@ -203,3 +203,32 @@ verus! {
 /// R10: a reachable `assert!` is an obligation
 pub fn vx_panic() requires false { }
 }
+
+// ---- T3: memchr::Memchr (iterator over all positions of a byte) -----------------------------------------
+pub mod memchr_iter_stub {
+    use vstd::prelude::*;
+    use super::spec::*;
+    verus! {
+    #[verifier::external_body]
+    pub struct Memchr<'a> { h: &'a [u8] }
+    impl<'a> Memchr<'a> {
+        pub uninterp spec fn hay(&self) -> Seq<u8>;
+        pub uninterp spec fn needle(&self) -> u8;
+        /// offset from which the next search starts
+        pub uninterp spec fn at(&self) -> int;
+        #[verifier::external_body]
+        pub fn new(needle: u8, haystack: &'a [u8]) -> (r: Memchr<'a>)
+            ensures r.hay() == haystack@, r.needle() == needle, r.at() == 0
+        { unimplemented!() }
+        /// Iterator::next: the next position of the needle at or after `at`, ascending, none skipped
+        #[verifier::external_body]
+        pub fn next(&mut self) -> (r: Option<usize>)
+            requires 0 <= old(self).at() <= old(self).hay().len()
+            ensures final(self).hay() == old(self).hay(), final(self).needle() == old(self).needle(),
+                ({ let k = first_of(old(self).hay(), old(self).needle(), old(self).at());
+                   &&& (k < old(self).hay().len() ==> r == Some(k as usize) && final(self).at() == k + 1)
+                   &&& (k >= old(self).hay().len() ==> r is None && final(self).at() == old(self).hay().len()) })
+        { unimplemented!() }
+    }
+    } // verus!
+}
